@@ -4,6 +4,7 @@
    unbounded inputs unless a bound is written in the statement. *)
 From TT Require Import Base.Prelude Base.ImscXml Model.ImscTime Model.TimeCode Model.ImscWrite Gen.ImscTables.
 From TT Require Import Model.ImscStyles Model.ImscTiming Model.ImscWriteTree Model.ImscParams.
+From TT Require Import Spec.TtmlColorSpec Proofs.C04.Color.
 From TT Require Import Proofs.C04.TimeSyntax Proofs.C05.Times Proofs.C05.Values Proofs.C05.Tree Proofs.C05.Params.
 From Coq Require Import QArith Qabs.
 Local Open Scope Z_scope.
@@ -57,6 +58,17 @@ Theorem C05_attr_roundtrip_color : forall r g b a, byte r -> byte g -> byte b ->
   read_style P_Color (print_color (r, g, b, a)) = Some (SColor (r, g, b, a)) /\
   print_style P_Color (SColor (r, g, b, a)) = WAttr (print_color (r, g, b, a)).
 Proof. exact color_style_roundtrip. Qed.
+(* ... and the converse direction (the reader's parse_color after its repair, see Properties/C04.v C04_color_accepted_iff): what the writer
+   prints for an RGBA8 colour is a strict TTML2 <color> (Spec/TtmlColorSpec.v: #rrggbb or #rrggbbaa) denoting that colour; the reader stores
+   a value for tts:color / tts:backgroundColor exactly when the attribute is a colour expression of the grammar, and stores the colour
+   it denotes, which is an RGBA8 colour - so a colour attribute is read back to c iff it denotes c *)
+Theorem C05_color_written_is_ttml : forall r g b a, byte r -> byte g -> byte b -> byte a -> ttml_color (print_color (r, g, b, a)) (r, g, b, a).
+Proof. exact print_color_ttml. Qed.
+Theorem C05_color_read_iff : forall p s v, p = P_Color \/ p = P_BackgroundColor ->
+  (read_style p s = Some v <-> exists c, v = SColor c /\ color_expr s c).
+Proof. exact color_read_iff. Qed.
+Theorem C05_color_read_rgba8 : forall s c, parse_color s = Some c -> rgba8 c.
+Proof. exact parse_color_rgba8. Qed.
 Theorem C05_attr_roundtrip_background_partial : forall r g b a, byte r -> byte g -> byte b -> byte a ->
   color_eqb (r, g, b, a) transparent = false ->
   print_style P_BackgroundColor (SColor (r, g, b, a)) = WAttr (print_color (r, g, b, a)) /\
@@ -234,10 +246,17 @@ Proof. unfold valid_len, U_px; cbn; lia. Qed.
 Example C05_example_shadows : Forall valid_shadow [(mkLen 1 U_px, mkLen 2 U_px, None, None); (mkLen 3 U_em, mkLen 4 U_em, Some (mkLen 1 U_c), Some (255, 0, 0, 255))].
 Proof. repeat constructor; unfold valid_len, U_px, U_em, U_c, byte; cbn; lia. Qed.
 
+(* colours: "rgb( 1 ,2,3)" is read as (1, 2, 3, 255) and "#010203ff0" is not read; (1, 2, 3, 255) is written as the strict "#010203" *)
+Example C05_example_color_read :
+  read_style P_Color [114; 103; 98; 40; 32; 49; 32; 44; 50; 44; 51; 41] = Some (SColor (1, 2, 3, 255)) /\
+  read_style P_Color [35; 48; 49; 48; 50; 48; 51; 102; 102; 48] = None /\ print_color (1, 2, 3, 255) = [35; 48; 49; 48; 50; 48; 51].
+Proof. repeat split; reflexivity. Qed.
+
 Print Assumptions C05_time_clock.  Print Assumptions C05_time_frames.  Print Assumptions C05_time_frames_error.
 Print Assumptions C05_time_frames_exact.  Print Assumptions C05_time_frames_monotone.
 Print Assumptions C05_time_clock_frames.  Print Assumptions C05_time_clock_frames_error.  Print Assumptions C05_frame_rate_roundtrip.
 Print Assumptions C05_attr_roundtrip_enum.  Print Assumptions C05_attr_roundtrip_bool.  Print Assumptions C05_attr_roundtrip_color.
+Print Assumptions C05_color_written_is_ttml.  Print Assumptions C05_color_read_iff.  Print Assumptions C05_color_read_rgba8.
 Print Assumptions C05_attr_roundtrip_background_partial.  Print Assumptions C05_length_roundtrip.
 Print Assumptions C05_attr_roundtrip_length.  Print Assumptions C05_attr_roundtrip_line_height.
 Print Assumptions C05_attr_roundtrip_line_padding_partial.  Print Assumptions C05_attr_roundtrip_extent.
